@@ -292,10 +292,41 @@ def expressible(con, case):
     return True
 
 
+def badeq_value(con, case, src):
+    """an invalid value that compares equal (==) to the value in force when `src` is applied: 1.0 for an integer
+    setting at 1, 0 / 1 for a boolean one; None when this setting / case has no such value"""
+    v = getattr(con.S.validator, "__name__", "?")
+    if v not in ("validate_pos_int", "validate_bool"):
+        return None
+    cur = "dflt"
+    if src == "file" and case["fw"] in ("A", "B"):
+        cur = case["fw"]
+    elif src == "file" and case["fw"] == "bad":
+        return None
+    py = con.vals[cur][0]
+    if isinstance(py, bool):
+        return int(py)
+    if isinstance(py, int):
+        return float(py)
+    return None
+
+
 def run_case(con, case, mods):
     gconfig, gutil, WSGIApplication = mods
     wd = con.wd
     name = con.name
+    if case.get("reload") and (not case["files"] or case["file"] not in ("A", "B") or con.name in ("config", "spew")):      # reload() with spew set installs a trace function
+        return {"skip": "inexpressible"}
+    beq = {}
+    if case.get("badeq"):
+        for src in ("fw", "file"):
+            if case[src] == "bad":
+                x = badeq_value(con, case, src)
+                if x is None:
+                    return {"skip": "inexpressible"}
+                beq[src] = x
+        if not beq:
+            return {"skip": "inexpressible"}
     files = list(case["files"])
     chosen = "cli" if "cli" in files else "env" if "env" in files else "cwd" if "cwd" in files else None
     paths = {"cwd": os.path.join(wd, "gunicorn.conf.py"), "env": os.path.join(wd, "env.conf.py"),
@@ -312,7 +343,9 @@ def run_case(con, case, mods):
     for src in files:
         text = "# %s\n" % src
         if src == chosen:
-            if case["file"] != "no":
+            if "file" in beq:
+                text += "%s = %r\n" % (name, beq["file"])
+            elif case["file"] != "no":
                 text += con.file_text(case["file"])
         else:
             text += con.file_text(decoy)
@@ -330,7 +363,7 @@ def run_case(con, case, mods):
         if case["env"] != "no":
             envtoks += con.cli_tokens(case["env"])
     argv.append(APP_ARG)
-    fw = {name: con.py_value(case["fw"])} if case["fw"] != "no" else None
+    fw = {name: beq["fw"] if "fw" in beq else con.py_value(case["fw"])} if case["fw"] != "no" else None
 
     class App(WSGIApplication):
         def init(self, parser, opts, args):
@@ -349,6 +382,13 @@ def run_case(con, case, mods):
     try:
         try:
             app = App("%(prog)s [OPTIONS] [APP_MODULE]", prog="gunicorn")
+            if case.get("reload"):
+                # HUP: the chosen configuration file no longer mentions the setting; everything else is unchanged
+                with open(paths[chosen], "w") as f:
+                    f.write("# %s (rewritten before reload)\n" % chosen)
+                os.chdir(wd)
+                app.reload()
+                res["reloaded"] = True
             v = app.cfg.settings[name].get()
             res["obs"] = con.labels(v)
             res["detail"] = nrepr(v)[:120]
@@ -368,6 +408,8 @@ def run_case(con, case, mods):
         sys.path[:] = saved[4]
         os.chdir(saved[5])
         sys.modules.pop("__config__", None)
+    if beq:
+        res["badeq"] = {k: repr(x) for k, x in beq.items()}
     res["argv"] = argv[1:]
     res["envargs"] = shlex.join(envtoks) if envtoks else ""
     return res
